@@ -724,7 +724,9 @@ func (c *EvalCtx) evalCall(e *ECall) TV {
 		// so the inverse laws hold without a range guard and instantiation chains close at once
 		t4 := fmt.Sprintf("(forall ((%s Int)) (! (and (= (%s (%s %s)) %s) (= (%s (%s %s)) %s)) :pattern ((%s %s)) :pattern ((%s %s))))",
 			qi, inv, perm, qi, qi, perm, inv, qi, qi, perm, qi, inv, qi)
-		return TV{Term: "(and " + t1 + " " + t2 + " " + t3 + " " + t4 + ")", Sort: "Bool", T: boolT}
+		// cells of the same array outside the slice are unchanged
+		t5 := fmt.Sprintf("(forall ((%s Int)) (! (=> (or (< %s (s.off %s)) (>= %s (+ (s.off %s) (s.len %s)))) (= (select %s %s) (select %s %s))) :pattern ((select %s %s))))", qi, qi, x.Term, qi, x.Term, x.Term, newArr, qi, oldArr, qi, newArr, qi)
+		return TV{Term: "(and " + t1 + " " + t2 + " " + t3 + " " + t4 + " " + t5 + ")", Sort: "Bool", T: boolT}
 	case "bitand", "bitor", "bitxor":
 		argn(2)
 		x := c.eval(e.Args[0])
